@@ -7,6 +7,7 @@
 //
 //	s <escaped chunk>     append a chunk (one top-level statement, or a comment block) to the source
 //	fmt                   scan / parse / format the accumulated source, re-scan / re-parse / re-format the output
+//	                      (the empty source is formatted in a child process: the unpatched code calls log.Fatalln)
 //
 // The executor is driven only by the op text (replay and shrinking remove chunks).
 package c20
@@ -14,6 +15,8 @@ package c20
 import (
 	"bytes"
 	"fmt"
+	"os"
+	"os/exec"
 	"strings"
 	"testing"
 
@@ -149,7 +152,8 @@ func scanAll(src string) (res scanResult) {
 	for i, tok := range raw {
 		if tok.Type == token.COMMENT || tok.Type == token.DOCUMENT {
 			res.comments = append(res.comments, strings.TrimSpace(tok.Text))
-			if hasCtl(tok.Text) {
+			// a line comment in front of a CR LF line end contains the CR; that is layout, not content
+			if hasCtl(strings.TrimRight(tok.Text, "\r")) {
 				res.oddCm = true
 			}
 			continue
@@ -400,8 +404,7 @@ func sameStrings(a, b []string) bool {
 // observe is the whole `fmt` operation on the real code.
 func observe(src string) string {
 	if len(src) == 0 {
-		// parser.New -> scanner.MustNewScanner -> log.Fatalln on an empty input: cannot be called in-process
-		return "empty"
+		return observeEmpty()
 	}
 	var w []string
 	sc := scanAll(src)
@@ -447,6 +450,40 @@ func observe(src string) string {
 		w = append(w, "OUT1", "'"+esc(out), "OUT2", "'"+esc(out2))
 	}
 	return strings.Join(w, " ")
+}
+
+// observeEmpty formats the empty source in a child process: parser.New -> scanner.MustNewScanner calls
+// log.Fatalln on an empty input, which would terminate the harness itself.
+func observeEmpty() string {
+	cmd := exec.Command(os.Args[0], "-test.run", "^TestVerifC20EmptyChild$", "-test.count=1", "-test.v")
+	cmd.Env = append(os.Environ(), "C20_EMPTY_CHILD=1", "VERIF_TRACE_OUT=", "VERIF_OPS_IN=")
+	out, err := cmd.CombinedOutput()
+	text := string(out)
+	switch {
+	case strings.Contains(text, "C20EMPTY result=err"):
+		return "empty result=err"
+	case strings.Contains(text, "C20EMPTY result=ok"):
+		return "empty result=ok"
+	}
+	code := 0
+	if ee, ok := err.(*exec.ExitError); ok {
+		code = ee.ExitCode()
+	} else if err != nil {
+		code = -1
+	}
+	return fmt.Sprintf("empty result=exit code=%d missing-input=%s", code, b01(strings.Contains(text, "missing input")))
+}
+
+func TestVerifC20EmptyChild(t *testing.T) {
+	if os.Getenv("C20_EMPTY_CHILD") != "1" {
+		t.Skip("child of TestVerifC20")
+	}
+	var b bytes.Buffer
+	if err := format.Source(nil, &b); err != nil {
+		fmt.Println("C20EMPTY result=err")
+		return
+	}
+	fmt.Println("C20EMPTY result=ok")
 }
 
 func TestVerifC20(t *testing.T) {
